@@ -38,7 +38,8 @@ SLOTS = {
     "func": ["body"],
 }
 JUMPS = ["none", "break", "continue", "return", "raise_EA", "raise_EB", "raise_EC", "raise_bare", "raise_from", "assert", "raise_key", "assert_pass", "assert_msg"]
-HANDLERS = ["except EA:", "except (EC, EA) as e:", "except Exception as e:", "except:", "except EB:", "except (KeyError, EC):"]
+# the last one is an expression whose value differs every time an exception reaches it (XS is defined by render())
+HANDLERS = ["except EA:", "except (EC, EA) as e:", "except Exception as e:", "except:", "except EB:", "except (KeyError, EC):", "except XS.pop():"]
 
 
 class Render:
@@ -174,6 +175,7 @@ class Render:
 
 def render(tree):
     r = Render()
+    r.emit(0, "XS = [EC, EA, EB, (EC, EA), EC, EA, EB, EA]")
     r.emit(0, "def w():")
     r.block(tree, 1, {"loop": False, "func": True, "handler": False, "final": False})
     r.emit(1, f"return T({r.tag()}, 'end')")
